@@ -328,6 +328,9 @@ class SessionRun(ClientRun):
                 c.subscribe_home_assistant_states(
                     lambda e, attr, sid=sid: run.cb.append([sid, "hastate", int(e[1:]), [], run.msg_seq]),
                     lambda e, attr, sid=sid: run.cb.append([sid, "hastate_once", int(e[1:]), [], run.msg_seq]))
+            elif fam == "hastate1":
+                # no handler for one-shot requests: they go to the subscription handler like every other message
+                c.subscribe_home_assistant_states(lambda e, attr, sid=sid: run.cb.append([sid, "hastate", int(e[1:]), [], run.msg_seq]))
             elif fam == "adv":
                 u = c.subscribe_bluetooth_le_advertisements(lambda adv, sid=sid: (run.cb.append([sid, "adv", adv.address, [], run.msg_seq]), maybe_unsub()))
             elif fam == "rawadv":
@@ -563,7 +566,7 @@ def c16_systematic() -> list:
     return cross, out
 
 
-SUB_FAMS = ["states", "logs", "svc", "hastate", "adv", "rawadv", "free"]
+SUB_FAMS = ["states", "logs", "svc", "hastate", "hastate1", "adv", "rawadv", "free"]
 
 
 _KEY = [1000]
@@ -635,7 +638,7 @@ def c17_systematic(rng: random.Random, quick: bool) -> list:
             sch += [("ev", "msgs", msgs[:cut]), rng.choice([("idle",), ("iter", 1)]), ("ev", "msgs", msgs[cut:]), ("idle",)]
         out.append(sch)
     # the other subscription families, unsubscribe at every point of a 4-message stream
-    for fam, mk in (("logs", "log"), ("svc", "hasvc"), ("hastate", "hastate"), ("adv", "adv"), ("rawadv", "rawadv"), ("free", "free")):
+    for fam, mk in (("logs", "log"), ("svc", "hasvc"), ("hastate", "hastate"), ("hastate1", "hastate"), ("adv", "adv"), ("rawadv", "rawadv"), ("free", "free")):
         for cut in range(0, 5):
             msgs = [{"k": mk, "d": 20 + j, "f": j % 2 == 0} for j in range(4)]
             sch = [("ev", "sub", 1, fam), ("idle",), ("ev", "msgs", msgs[:cut]), ("iter", 1), ("ev", "unsub", 1, fam), ("ev", "msgs", msgs[cut:]), ("idle",)]
